@@ -44,6 +44,8 @@ THEOREMS = [
     "C14_type_ident_settings",
     "C14_replace_lookup",
     "C14_replace_entry",
+    "C14_replace_lookup_ignores_title",
+    "C14_replace_key_suggested_differs",
     "C14_convert_lookup_ignores_annotations",
     "C14_convert_everywhere_partial",
     "C14_convert_ignores_nested_annotations",
@@ -111,8 +113,22 @@ def deep_strip(s):
     return out
 
 
-def tok_re(name):
-    return re.compile(r"(?<![A-Za-z0-9_])%s(?![A-Za-z0-9_])" % re.escape(name))
+class tok_re:
+    """occurrences of identifier `name` as a type of THIS module: a whole token that is not a segment of an
+    external path (`::serde_json::Value` does not mention a definition called Value; `super::Value` does)"""
+
+    def __init__(self, name):
+        self.rx = re.compile(r"(?<![A-Za-z0-9_])%s(?![A-Za-z0-9_])" % re.escape(name))
+
+    def search(self, text):
+        for m in self.rx.finditer(text):
+            before = text[:m.start()].rstrip()
+            if before.endswith("::"):
+                seg = re.search(r"([A-Za-z0-9_]+)\s*::$", before)
+                if not seg or seg.group(1) not in ("super", "self", "crate", "Self"):
+                    continue
+            return m
+        return None
 
 
 def case_of(doc, settings=None):
@@ -639,6 +655,14 @@ def check_syntactic(doc, st, meta, g, base, viol, counts):
         counts["replace_targets"] += 1
         if MUT == "replace-raw-name":
             e = B.ent(B.ref.get(dn))
+        dschema = doc.get("definitions", {}).get(dn)
+        title = dschema.get("title") if isinstance(dschema, dict) else None
+        if title is not None:
+            counts["replace_targets_with_title"] += 1
+            counts["replace_target_title:" + ("same-as-name" if title == dn else
+                                              "other-definition" if title in doc["definitions"] else "other")] += 1
+            if MUT == "replace-key-from-title" and title != dn:
+                e = B.ent(B.ref.get(dn))     # the lookup used the title: the replacement is silently ignored
         if not (e and e["kind"] == "native" and squash(e["type_name"]) == squash(ty)
                 and sorted(e["impls"]) == sorted(r["impls"])):
             bad("replaced-definition-not-native", definition=dn, entry=e)
@@ -669,6 +693,26 @@ def check_syntactic(doc, st, meta, g, base, viol, counts):
                         [(p["name"], p["rename"], p["state"]["k"]) for p in a.get("props", [])] != \
                         [(p["name"], p["rename"], p["state"]["k"]) for p in b.get("props", [])]:
                     bad("allof-over-replaced-definition-not-merged-structurally", definition=name)
+    # ---- a definition that is NOT named in a replacement is generated (whatever its title says)
+    rtypes = {squash(r["type"]) for r in meta["replace"].values()}
+    ctypes = {squash(c["type"]) for c in meta["convert"]}
+    for dn in sorted(doc.get("definitions", {})):
+        if dn in meta["replace"] or dn not in D.ref or dn not in B.ref:
+            continue
+        e, eb = D.ent(D.ref[dn]), B.ent(B.ref[dn])
+        if e is None or eb is None:
+            continue
+        counts["not_replaced_definitions"] += 1
+        dschema = doc["definitions"][dn]
+        if isinstance(dschema, dict) and dschema.get("title") in {r["key"] for r in meta["replace"].values()}:
+            counts["not_replaced_definitions_titled_as_a_replacement_key"] += 1
+            if MUT == "replace-key-from-title":
+                e = {"kind": "native", "type_name": next(iter(rtypes)), "impls": []}
+        if e["kind"] == "native" and eb["kind"] != "native" and squash(e["type_name"]) in rtypes - ctypes:
+            bad("definition-not-named-in-a-replacement-was-replaced", definition=dn, entry=e)
+        elif eb["kind"] in ("struct", "enum", "newtype") and e["kind"] in ("struct", "enum", "newtype") \
+                and eb["name"] not in meta["patch"] and e["name"] != eb["name"]:
+            bad("definition-generated-under-another-name", definition=dn, name=e["name"], default_name=eb["name"])
     # ---- conversion
     for c in meta["convert"]:
         cs, ty = c["schema"], c["type"]
@@ -1077,6 +1121,20 @@ def load_docs(ctx):
         for pth, s in type_positions(doc):
             if isinstance(s, dict) and rnd.random() < 0.25 and "$ref" not in s:
                 s["description"] = "occurrence at " + pth
+        dnames = sorted(doc["definitions"])
+        for dn in dnames:
+            s = doc["definitions"][dn]
+            if not isinstance(s, dict) or ("$ref" in s and len(s) == 1):
+                continue
+            x = rnd.random()
+            if x < 0.2:
+                s["title"] = "a hand rolled thing %d" % k          # sanitises to a name no definition has
+            elif x < 0.3:
+                s["title"] = dn                                     # = its own name
+            elif x < 0.45 and len(dnames) > 1:
+                s["title"] = rnd.choice([n for n in dnames if n != dn])   # = another definition's name
+            elif x < 0.6:
+                s["description"] = "definition " + dn
         docs.append({"src": "grammar:%d" % k, "doc": doc, "tags": tags})
     return docs
 
